@@ -54,9 +54,9 @@ type MapperSums struct {
 // summarize runs the abstract interpreter once per 8 KiB page.
 func summarize(ctx *Ctx, fn *ssa.Function) (res [nPages]PageSum, steps int) {
 	ip := absint.New()
-	in := ip.In.Atom("in", pageBits, 1<<pageBits-1)
 	for page := 0; page < nPages; page++ {
 		ip.Reset()
+		in := ip.In.Atom("in", pageBits, 1<<pageBits-1)
 		// input = page<<13 | in(0..12): low bits are literals of the symbolic offset
 		arg := absint.NewSym(32, in, false)
 		arg = ip.Ops.Or(ip.Ops.Shl(absint.NewConst(32, uint64(page), false), absint.NewConst(32, pageBits, false)), arg)
